@@ -240,6 +240,7 @@ type eqAnswer struct {
 	Res  []edgeRes
 	Dist float64
 	Bool bool
+	raw  []s2.EdgeQueryResult // the slice FindEdges returned, as returned (to see whether later calls rewrite it)
 }
 
 // eqCall invokes an EdgeQuery method by name: FindEdges, Distance,
@@ -259,6 +260,7 @@ func eqCall(q *s2.EdgeQuery, method string, target any, limit s1.ChordAngle) eqA
 	switch method {
 	case "FindEdges":
 		rs := out[0].Interface().([]s2.EdgeQueryResult)
+		a.raw = rs
 		a.Res = make([]edgeRes, len(rs))
 		for i, r := range rs {
 			a.Res[i] = edgeRes{D: float64(r.Distance()), S: r.ShapeID(), E: r.EdgeID()}
@@ -269,6 +271,20 @@ func eqCall(q *s2.EdgeQuery, method string, target any, limit s1.ChordAngle) eqA
 		a.Bool = out[0].Bool()
 	}
 	return a
+}
+
+// rewritten reports whether the slice a FindEdges call returned no longer holds
+// the results it held when it was returned.
+func (a eqAnswer) rewritten() bool {
+	if len(a.raw) != len(a.Res) {
+		return true
+	}
+	for i, r := range a.raw {
+		if (edgeRes{D: float64(r.Distance()), S: r.ShapeID(), E: r.EdgeID()}) != a.Res[i] {
+			return true
+		}
+	}
+	return false
 }
 
 // qcfg are the options a caller configures on an EdgeQuery.
@@ -556,6 +572,6 @@ func init() {
 		Rule:  "a fixed index and long-lived query objects (one ContainsPointQuery per vertex model, one CrossingEdgeQuery) answering ≤ " + maxOps + " calls with varying points/edges/shapes/crossing types; oracle: new query objects on a fresh copy of the index per call. Non-trivial: ≥ 2 calls on one object, index with ≥ 2 cells.",
 		Quick: 2500, Thorough: 80000, Journal: true}, genPQReuse, checkPQReuse)
 	ev.Define("stale_query_objects", ev.Options{
-		Rule:  "query objects (ContainsPointQuery, CrossingEdgeQuery, closest EdgeQuery) created on an index BEFORE a later Add (optionally used once before it, optionally followed by an explicit Build, optionally EdgeQuery.Reset; in 1/3 of cases the index is Reset first, and in half of those the SAME earlier shape objects are added again after the later ones, so they sit under other ids; the objects used before have answered per-shape calls - ShapeContains, Crossings - for the earlier shapes) and then asked (each of the three ContainsPointQuery methods, and either CrossingEdgeQuery method, comes first in some cases - any one of them may be the call that notices the pending update); oracle: new query objects on a fresh index with all shapes. Kept separate because the defect (Finding stale-query-object) would mask everything else; Counts record which method disagreed. Non-trivial: the later shape changes some fresh answer.",
-		Quick: 2500, Thorough: 60000, Journal: true}, genStale, checkStale)
+		Rule:  "query objects (ContainsPointQuery, CrossingEdgeQuery, closest EdgeQuery) created on an index BEFORE a later Add (optionally used once before it, optionally followed by an explicit Build, optionally EdgeQuery.Reset; in 1/3 of cases the index is Reset first, and in half of those the SAME earlier shape objects are added again after the later ones, so they sit under other ids; the objects used before have answered per-shape calls - ShapeContains, Crossings - for the earlier shapes, the EdgeQuery also single-result calls, which stop early) and then asked (each of the three ContainsPointQuery methods, and either CrossingEdgeQuery method, comes first in some cases - any one of them may be the call that notices the pending update); oracle: new query objects on a fresh index with all shapes. Kept separate because the defect (Finding stale-query-object) would mask everything else; Counts record which method disagreed. Non-trivial: the later shape changes some fresh answer.",
+		Quick: 4000, Thorough: 60000, Journal: true}, genStale, checkStale)
 }
